@@ -7,6 +7,7 @@ import (
 	"fmt"
 	"os"
 	"os/exec"
+	"path/filepath"
 	"runtime"
 	"strings"
 	"sync"
@@ -49,12 +50,32 @@ type WorkerOutcome struct {
 	HasRes   bool
 }
 
+// Instrumented is set by the generated registration file of the scheduled binary (sync shims + yields).
+var Instrumented bool
+
+// SchedBin returns the path of the scheduled binary that belongs to this binary ("" if this is it or none exists).
+func SchedBin() string {
+	if Instrumented {
+		return ""
+	}
+	dir, base := filepath.Dir(os.Args[0]), filepath.Base(os.Args[0])
+	p := filepath.Join(dir, strings.Replace(base, "verifx", "verifx-sched", 1))
+	if _, err := os.Stat(p); err != nil {
+		return ""
+	}
+	return p
+}
+
 // SpawnWorker runs one worker process of this binary: verifx worker <id> <tier> args...
 // env may add environment entries; timeout kills the process group.
 func (c *Ctx) SpawnWorker(args []string, env []string, timeout time.Duration, prlimitAS uint64) WorkerOutcome {
 	full := append([]string{"worker", c.ID, c.Tier}, args...)
 	env = append(env, fmt.Sprintf("VERIF_DEADLINE_UNIX=%d", c.Deadline.Unix()))
-	cmd := exec.Command(os.Args[0], full...)
+	bin := os.Args[0]
+	if c.WorkerBin != "" {
+		bin = c.WorkerBin
+	}
+	cmd := exec.Command(bin, full...)
 	cmd.Env = append(os.Environ(), env...)
 	cmd.SysProcAttr = &syscall.SysProcAttr{Setpgid: true}
 	var so, se bytes.Buffer
@@ -64,7 +85,7 @@ func (c *Ctx) SpawnWorker(args []string, env []string, timeout time.Duration, pr
 	if prlimitAS > 0 {
 		// wrap in a shell that sets ulimit -v (KiB)
 		sh := fmt.Sprintf("ulimit -v %d; exec \"$0\" \"$@\"", prlimitAS/1024)
-		cmd = exec.Command("/bin/sh", append([]string{"-c", sh, os.Args[0]}, full...)...)
+		cmd = exec.Command("/bin/sh", append([]string{"-c", sh, bin}, full...)...)
 		cmd.Env = append(os.Environ(), env...)
 		cmd.SysProcAttr = &syscall.SysProcAttr{Setpgid: true}
 		cmd.Stdout = &so
